@@ -331,6 +331,18 @@ func (p *Path) obsPrimitive(name string, args []Value) (Value, bool) {
 		return t, true
 	case "vpRetainedTree":
 		return p.ts.Const(64, uint64(p.retainedBytes(args[0]))), true
+	case "vpReachableLeaves":
+		// leaf objects reachable from the index through ANY pointer slot, occupied or not
+		seen := map[*Object]bool{}
+		var order []*Object
+		p.reachable(args[0], seen, &order)
+		n := 0
+		for _, ob := range order {
+			if nm, ok := ob.root.typ.(*types.Named); ok && strings.HasSuffix(nm.Obj().Name(), "LeafNode") {
+				n++
+			}
+		}
+		return p.ts.Const(64, uint64(n)), true
 	case "vpReps":
 		return args[0], true
 	case "vpNoGrowth":
